@@ -216,6 +216,8 @@ class TreeGen(object):
 
   def ob(self, tid, allow_empty=True):
     cs = self.cols(tid)
+    if self.typed:      # sort keys of one kind per column (lists, mixed kinds: Python's rich comparison is not modelled)
+      cs = [c for c in cs if not c['isFormula'] and c['type'].split(':')[0] in ('Int', 'Text', 'Ref')]
     n = self.r.choice([0, 1, 1, 2] if allow_empty else [1, 1, 2])
     return [(self.r.random() < 0.4, c['colId']) for c in self.r.sample(cs, min(len(cs), n))]
 
@@ -308,9 +310,11 @@ class TreeGen(object):
       if r.random() < 0.3:
         body = ('p2', 0, body, self.scalar(depth - 2))
       cond = None
-      if r.random() < 0.4 and self.typed:
+      if self.typed:
         ic = [c for c in cs if c['type'] == 'Int' and not c['isFormula']]
-        if ic and r.random() < 0.5:
+        if r.random() >= 0.4:
+          pass
+        elif ic and r.random() < 0.5:
           cond = ('p2', 2, ('col', ('var', v[0]), r.choice(ic)['colId']), self.int_expr(depth - 2))
         else:
           cond = ('p2', 1, self.attr(tid, ('var', v[0]), r.choice(cs)['colId']) if cs else ('int', 1),
